@@ -63,7 +63,9 @@ PROP = dict(
     modelled="lkh::make_edge/make_edge_set (BTreeSet order), Tour::new, Tour::try_path (edge surgery, successor walk with "
              "HashMap overwrite, visited/length validation), KOpt::optimize loop; dbscan::create_clusters line by line; "
              "kmedoids::assign_points_to_medoids, update_medoids, the loop of KMedoids::calculate with both return paths, "
-             "create_hierarchical_kmedoids (scan/take_while over tiers with create_kmedoids(..,2,..) as a parameter)",
+             "create_hierarchical_kmedoids (scan/take_while over tiers, HashMap insert/extend, propagation of unsplit "
+             "clusters; the create_kmedoids(..,2,..) calls are a parameter, looked up in the implementation's own next tier "
+             "for the exact comparison)",
     traced="KOpt::improve/find_closest/choose_x/choose_y (HashMap-ordered neighbour search: abstracted by its contract in the "
            "theorems, its results are checked by the Lean contract checker on every lkh_optimize output); "
            "KMedoids::initialize_medoids (parallel fold, order dependent) and the HashMap iteration order of "
@@ -82,16 +84,19 @@ PROP = dict(
 
 META = dict(
     text="Proof (Lean 4), all sizes: Tour::try_path — a rebuilt tour is a permutation of the path's nodes starting at the "
-         "path's first node, every leg is an edge of (tour edges − broken + joined), and when the closed result uses exactly "
-         "that edge set its cost is old − Σbroken + Σjoined; KOpt::optimize with improve abstracted by its contract never "
-         "raises the closed-tour cost, keeps node set and start node, and terminates. DBSCAN create_clusters — clusters "
-         "pairwise disjoint, every cluster seeded by a core point, every member density-reachable from the seed, no core "
-         "point of the input unclustered (and all neighbours of clustered core points clustered), the fuel bound suffices. "
-         "k-medoids — every return path of calculate is an assignment to the final medoids: a partition of the points in "
-         "which no point is closer to another cluster's medoid than to its own, keys are medoids; hierarchical tiers: "
-         "per-split contract. Tie: exact differential run of try_path (hook H7), create_clusters and the k-medoids "
-         "assignment against the models; the specifications evaluated by Lean on the outputs of the real lkh_optimize, "
-         "create_clusters, create_kmedoids, create_hierarchical_kmedoids.",
+         "path's first node, every leg is an edge of (tour edges − broken + joined); for a degree-preserving move (no node "
+         "with more than two incident edges, n edges) the accepted closed tour uses exactly that edge set and its cost is "
+         "old − Σbroken + Σjoined; KOpt::optimize with improve abstracted by its move-level contract never raises the "
+         "closed-tour cost, keeps node set and start node, and terminates. DBSCAN create_clusters — clusters pairwise "
+         "disjoint, every cluster seeded by a core point of the input, every member density-reachable from the seed, no "
+         "core point unclustered (and all neighbours of clustered core points clustered), the fuel bound suffices (the "
+         "worklist loop terminates). k-medoids — every return path of calculate is an assignment to the final medoids: a "
+         "partition of the points in which no point is closer to another cluster's medoid than to its own, keys are data "
+         "points, at most k clusters, no expect() panic; hierarchy: hash-map inserts never collide, every tier is a "
+         "partition and decomposes into one valid split per cluster of the previous tier (nearest medoid among siblings), "
+         "and passes the executable per-split check. Tie: exact differential run of try_path (hook H7), create_clusters, "
+         "the k-medoids assignment and the hierarchy scan against the models; the specifications evaluated by Lean on the "
+         "outputs of the real lkh_optimize, create_clusters, create_kmedoids, create_hierarchical_kmedoids.",
     note=COMMON_NOTE + " Traced, not modelled: the LKH neighbour search order and k-medoids' initial medoid choice "
          "(hash-map / parallel-fold order); their outputs are checked against the proved contract on every case.",
     technique="Lean 4 theorems over executable models (worklist/fuel invariants, counting partitions) + differential "
